@@ -62,8 +62,8 @@ Definition model_mutate (incl : bool) (op : Z) (x : expr) (d v : jv) : bytes :=
     else modify_spec six x (modifier (op - 3) v) d in
   (if comparable then x63 else x75) :: x20 :: show (canon r).
 
-Definition model_mutate_live (op : Z) (x : expr) (d v : jv) : bytes :=
-  show (canon (modify_live_spec slice_indexes x (modifier (op - 3) v) d)).
+Definition model_mutate_live (incl : bool) (op : Z) (x : expr) (d v : jv) : bytes :=
+  show (canon (modify_live_spec (six_of incl) x (modifier (op - 3) v) d)).
 
 Definition model_mutate_one (incl : bool) (op : Z) (x : expr) (d v : jv) : bytes :=
   let six := six_of incl in
